@@ -104,12 +104,12 @@ MANIFEST_TEXT["C04"] = dict(engine="E-input", design_ref="DESIGN.md §4 C04",
 
 PROPS["C06"] = dict(
     driver="c06", builds=["rel", "dbg"], level="exploration",
-    rule="E-input: a catalogue of values of every Serialize type (u64, usize, pairs, vectors of them, byte vectors of every length 0..17, ASCII and multi-byte strings, Option and Option<Option<>> of several types, "
+    rule="E-input: a catalogue of values of every Serialize type (u64, usize, pairs, vectors of them, byte vectors of every length 0..17, ASCII and multi-byte strings, Option and Option<Option<>> of several types incl. Option<SparseVector|RLVector|WaveletMatrix>, "
          "RawVector, IntVector at many widths, BitVector with each of the 8 support subsets, SparseVector (sets and multisets), RLVector with 1/8/9/many blocks, WMCore, WaveletMatrix, RankSupport, SelectSupport) plus every "
          "BitVector / SparseVector / RLVector of <= N bits. For each x: bytes written == 8*size_in_elements == size_in_bytes; load consumes exactly those bytes, equals x, re-serializes identically and answers the query sets of C01-C04; "
          "also through 1/3/7/8/9-byte short-read readers and 1/3/7-byte short-write sinks; size_by_params for Raw/IntVector over boundary (capacity, width) sets. Every ordered pair (thorough: every triple over 24 values) "
          "written back to back loads in sequence with the reader ending exactly at the end. Non-trivial = more than one element; distinct by hashed descriptor / descriptor tuple.",
-    bounds={"quick": "144-value catalogue, N=8, 20 736 pairs", "thorough": "extended catalogue (all widths, all byte lengths, multi-superblock vectors), N=12, all pairs, 46 656 triples"},
+    bounds={"quick": "150-value catalogue, N=8, 22 500 pairs", "thorough": "extended catalogue (all widths, all byte lengths, multi-superblock vectors), N=12, all pairs, 46 656 triples"},
     assumptions=[HOOK_ASSUMPTION, MODEL_ASSUMPTION],
 )
 MANIFEST_TEXT["C06"] = dict(engine="E-input", design_ref="DESIGN.md §4 C06",
